@@ -263,6 +263,33 @@ fn judge(acc: &mut Acc, what: &str, text: &str, delta: &str, dns: i128, v: &Verd
     }
 }
 
+/// A delegation chain `depth` levels deep below the outer layout: level i lies in
+/// dir/s.<k1>/../ and is signed by the i-th key; every level but the last is an unexpired layout
+/// that delegates its one step, the last carries the expiry text.
+fn build_chain(dir: &std::path::Path, depth: usize, text: &str, inner_template: &Value) -> bool {
+    let chain = [keys::get("ed1"), keys::get("ed2"), keys::get("ed3")];
+    let Some(innermost) = signed_with_expiry(text, inner_template, chain[depth - 1]) else { return false };
+    let _ = std::fs::remove_dir_all(dir);
+    std::fs::create_dir_all(dir).unwrap();
+    let mut at = dir.to_path_buf();
+    for level in 1..=depth {
+        let signer = chain[level - 1];
+        let text_of_level = if level == depth {
+            let mut v = world::block_value(&innermost);
+            v["signed"]["expires"] = json!(text);
+            v.to_string()
+        } else {
+            let next = chain[level];
+            // (written to a file: the expiry must be a four-digit year)
+            world::block_text(&world::sign_layout(world::layout(vec![world::step("s", 1, &[next])], vec![], &[next], chrono::DateTime::parse_from_rfc3339("9999-12-31T23:59:59Z").unwrap().with_timezone(&chrono::Utc)), &[signer]))
+        };
+        world::write(&at, &world::link_file("s", signer), &text_of_level);
+        at = at.join(format!("s.{}", signer.prefix()));
+        std::fs::create_dir_all(&at).unwrap();
+    }
+    true
+}
+
 /// Ageing leg (hooks-off binary, real clock, one process): layouts that expire *after* the
 /// process's first verification must be rejected once their expiry has passed.
 fn judge_ageing(acc: &mut Acc, extra: &mut serde_json::Map<String, Value>, results: Vec<(String, String, f64, f64, String)>) {
@@ -429,11 +456,28 @@ pub fn run(tier: Tier) -> i32 {
                     }
                 }
             }
+            // ---- the same two and three levels down: every layout above the expiring one is unexpired
+            if *ci % (sub_every * 2) == 0 {
+                for depth in [2usize, 3] {
+                    if !build_chain(dir, depth, &text, &fx.inner) {
+                        continue;
+                    }
+                    let leg = if depth == 2 { "sub-sub-layout" } else { "depth-3-sub-layout" };
+                    for (dname, dns) in DELTAS {
+                        let Some(now) = from_ns(exp_ns + dns) else { continue };
+                        let drv = Driver { clock: Some(now), permute: true, ..Driver::default() };
+                        let (v, _) = world::verify_with(&fx.outer, world::owner_map(&[owner]), dir, drv);
+                        judge(acc, leg, &text, dname, dns, &v, &|| json!({"level": leg, "expires": text, "delta": dname, "delta_ns": dns.to_string()}));
+                    }
+                    let _ = std::fs::remove_dir_all(&*dir);
+                    std::fs::create_dir_all(&*dir).unwrap();
+                }
+            }
         },
     );
     c.acc = Acc::merge_all(accs.into_iter().map(|(a, _)| a).collect());
     // non-vacuity: every leg must have accepted unexpired layouts, or the leg decides nothing
-    for leg in ["top-level", "top-level-with-step", "sub-layout"] {
+    for leg in ["top-level", "top-level-with-step", "sub-layout", "sub-sub-layout", "depth-3-sub-layout"] {
         let n = c.acc.notes.get(&format!("accepted:{leg}")).copied().unwrap_or(0);
         c.selftest(&format!("leg-accepts-unexpired:{leg}"), n > 0, "no layout of this leg was accepted at all: the fixture is broken or the library rejects everything");
     }
@@ -463,7 +507,7 @@ pub fn run(tier: Tier) -> i32 {
     }
     c.extra.insert("wall_clock_leg".into(), json!({"cases": wall.len(), "accepted": wall_ok, "time_zones": crate::plain::TIME_ZONES, "note": "hooks-off binary, real clock, run once per process time zone; confirms the clock seam changes nothing and that the clock read itself is zone-independent"}));
     c.rule = format!(
-        "grid: {} base instants x {} offset notations x {} sub-second spellings x {} separator/case styles (+ leap-second spelling) x {} verification times (expiry + delta); each point is one in_toto_verify run with the clock seam set (expired points also under a requested summary name); the same grid on a layout with a key table, a step with rules and a satisfying link (every {5} notation); sub-layout grid = same expiry texts on a delegated layout under an unexpired parent (every {} notation); non-trivial = notations the reference reader understands",
+        "grid: {} base instants x {} offset notations x {} sub-second spellings x {} separator/case styles (+ leap-second spelling) x {} verification times (expiry + delta); each point is one in_toto_verify run with the clock seam set (expired points also under a requested summary name); the same grid on a layout with a key table, a step with rules and a satisfying link (every {5} notation); sub-layout grid = same expiry texts on a delegated layout under an unexpired parent (every {} notation), and two and three levels down under unexpired layouts at every level above (every second of those); non-trivial = notations the reference reader understands",
         BASES.len(), OFFSETS.len(), FRACS.len(), STYLES.len(), DELTAS.len(), sub_every
     ) + "; wall-clock leg: expiry = real clock + {-1y,-1d,-1h,-2s,+1h,+1d,+1y} and the absolute years 0002, 1000, 1700 in 4 offset notations, hooks-off binary, under 4 process time zones; ageing leg: one hooks-off process verifies, then verifies layouts (two top-level, one delegated) expiring 2-3 s later, before and after their expiry";
     c.bound_completed = "complete grid".into();
@@ -493,6 +537,11 @@ pub fn replay(case: &Value) -> Value {
         let mut j = world::block_value(&inner);
         j["signed"]["expires"] = json!(text);
         world::write(&dir, &world::link_file("s", a), &j.to_string());
+        world::verify_with(&fx.outer, world::owner_map(&[owner]), &dir, drv).0
+    } else if case["level"] == "sub-sub-layout" || case["level"] == "depth-3-sub-layout" {
+        if !build_chain(&dir, if case["level"] == "sub-sub-layout" { 2 } else { 3 }, text, &fx.inner) {
+            return json!({"error": "unparseable", "violation": null});
+        }
         world::verify_with(&fx.outer, world::owner_map(&[owner]), &dir, drv).0
     } else {
         let Some(block) = signed_with_expiry(text, &fx.top, owner) else { return json!({"error": "unparseable", "violation": null}) };
